@@ -51,6 +51,72 @@ theorem fact_start_runs_every_notifier :
     Facts.C14.startRunGuards = [] ∧ Facts.C14.startLoopSkips = 0 ∧ Facts.C14.startLoopOtherNotifierCalls = [] ∧
     Facts.C14.stateNotifiersConditions = 0 ∧ Facts.C14.stateNotifiersRangeReturns = ["true"] := by decide
 
+/-- how each registered receiver maps what happened to (done, error), as written: which errors are handed back as they
+    are (retried), which are wrapped in dag.EventFatal (not retried, marked failed), what counts as done. The model
+    treats the receiver as an arbitrary function; these facts pin the classification the engines rely on, and the
+    vcr / v2 harness legs run the real functions. -/
+theorem fact_receiver_error_classification :
+    Facts.C14.natsReceiverReturns =
+      ["err != nil => return false, fmt.Errorf(errEventFailedMsg, err)",
+      "err != nil => return false, fmt.Errorf(errEventFailedMsg, err)",
+      "js.PublishAsync(events.TransactionsSubject, twpData); err != nil => return false, fmt.Errorf(errEventFailedMsg, err)",
+      "return true, nil"] ∧
+    Facts.C14.vdrReceiverReturns =
+      ["n.callback(event.Transaction, event.Payload); err != nil && !errors.As(err, new(stoabs.ErrDatabase)) => return false, dag.EventFatal{Err: err}",
+      "n.callback(event.Transaction, event.Payload); err != nil => return false, err",
+      "return true, nil"] ∧
+    Facts.C14.vcrVcsReceiverReturns =
+      ["n.vcCallback(event.Transaction, event.Payload); err != nil => return n.handleError(err)",
+      "return true, nil"] ∧
+    Facts.C14.vcrRevocationsReceiverReturns =
+      ["n.jsonLDRevocationCallback(event.Transaction, event.Payload); err != nil => return n.handleError(err)",
+      "return true, nil"] ∧
+    Facts.C14.vcrHandleErrorReturns =
+      ["errors.Is(err, context.Canceled) || errors.Is(err, context.DeadlineExceeded) => return false, err",
+      "errors.Is(err, jsonld.ContextURLNotAllowedErr) => return true, nil",
+      "errors.As(err, &jsonLDError) && jsonLDError.Code == ld.LoadingRemoteContextFailed && !errors.Is(err, jsonld.ContextURLNotAllowedErr) => return false, err",
+      "return false, dag.EventFatal{Err: err}"] ∧
+    Facts.C14.privateReceiverReturns =
+      ["err != nil && !errors.As(err, new(stoabs.ErrDatabase)) => err = dag.EventFatal{Err: err}",
+      "err != nil => return false, fmt.Errorf(\"unable to read payload (tx=%s): %w\", event.Hash, err)",
+      "isPresent => return true, nil",
+      "err != nil && !errors.As(err, new(stoabs.ErrDatabase)) => err = dag.EventFatal{Err: err}",
+      "err != nil => return false, fmt.Errorf(\"failed to decrypt PAL header (tx=%s): %w\", event.Hash, err)",
+      "pal == nil => return true, nil",
+      "!sent => return false, fmt.Errorf(\"no authenticated connection to any of the participants (tx=%s, PAL=%v)\", event.Hash.String(), pal)",
+      "return false, nil"] := ⟨rfl, rfl, rfl, rfl, rfl, rfl⟩
+
+/-- which function each registration hands to Subscribe / Notifier -/
+theorem fact_registration_receivers :
+    Facts.C14.registrationReceivers =
+      ["gossip <- p.gossipTransaction",
+      "nats <- n.emitEvents",
+      "private <- func => p.handlePrivateTxRetry(p.ctx, event)",
+      "vcr_revocations <- n.handleNetworkRevocations",
+      "vcr_vcs <- n.handleNetworkVCs",
+      "vdr <- n.handleNetworkEvent"] := rfl
+
+/-- CleanupSubscriberEvents (operator action) only finishes failed events of the NAMED subscriber whose error starts with the prefix -/
+theorem fact_cleanup_only_named_subscriber_and_prefix :
+    Facts.C14.cleanupSubscriberEventsReturns =
+      ["range n.Subscribers() && subscriber.Name() == subscriberName && err != nil => return err",
+      "range n.Subscribers() && subscriber.Name() == subscriberName && range events && strings.HasPrefix(event.Error, errorPrefix) && subscriber.Finished(event.Hash); err != nil => return err",
+      "return nil"] ∧
+    Facts.C14.cleanupSubscriberEventsCalls =
+      ["n.Subscribers()",
+      "subscriber.Name()",
+      "subscriber.GetFailedEvents()",
+      "strings.HasPrefix(event.Error, errorPrefix)",
+      "subscriber.Finished(event.Hash)"] := ⟨rfl, rfl⟩
+
+/-- the store handed to persistent subscribers of other engines (subscriber.go) is looked up exactly like the store the
+    DAG state is opened on (Network.Configure): Save refuses a different store -/
+theorem fact_subscribers_persist_on_the_dag_store :
+    Facts.C14.dagStoreLookups =
+      ["n.storeProvider.GetKVStore(\"data\", storage.PersistentStorageClass)",
+      "n.storeProvider.GetKVStore(\"data\", storage.PersistentStorageClass)",
+      "n.storeProvider.GetKVStore(\"connections\", storage.VolatileStorageClass)"] := rfl
+
 theorem fact_failed_events_threshold :
     Facts.C14.failedEventsCondition = ["event.Retries >= retriesFailedThreshold"] := by decide
 
